@@ -75,6 +75,7 @@ func runC11T(t *testing.T, c c11tCase) kit.Outcome {
 		synctest.Wait()
 		sc.arm(false)
 		elapsed := w.now() - time.Duration(c.Waiters)*time.Millisecond
+		elapsedAt := w.now()
 		var granted []int
 		for _, cl := range ws {
 			if cl.Done && cl.OK {
@@ -97,6 +98,51 @@ func runC11T(t *testing.T, c c11tCase) kit.Outcome {
 			o := kit.Viol(kind+":tie-order", "%d callers waiting (%s); the first in line (caller %d) was cancelled at the instant a token was released: it returned ok=%v, callers granted: %v; expected either the head, or (if it left) caller %d which is next in line; spawn order %v; points %v",
 				c.Waiters, ordName(lifo), head.ID, head.OK, granted, next.ID, c.Order, sc.Trace)
 			viol = &o
+		}
+		// afterwards: whatever the coincidence left behind in the backlog's bookkeeping, the order must still hold.
+		// Two more callers join the line, then the tokens are released one at a time: each release serves exactly the
+		// caller that is first in the configured order among those still waiting.
+		if viol == nil {
+			var line []*vtCaller
+			for _, cl := range ws {
+				if !cl.Done {
+					line = append(line, cl)
+				}
+			}
+			for k := 0; k < 2; k++ {
+				cl := w.newCaller("a", 0, 0)
+				w.start(cl)
+				synctest.Wait()
+				if !cl.Done {
+					line = append(line, cl)
+				}
+			}
+			for len(line) > 0 && viol == nil {
+				hs := w.heldByHarness()
+				if len(hs) != 1 {
+					break
+				}
+				w.release(hs[0], 0)
+				synctest.Wait()
+				want := line[0]
+				if lifo {
+					want = line[len(line)-1]
+				}
+				var got []int
+				var rest []*vtCaller
+				for _, cl := range line {
+					if cl.Done && cl.OK {
+						got = append(got, cl.ID)
+					} else if !cl.Done {
+						rest = append(rest, cl)
+					}
+				}
+				if len(got) != 1 || got[0] != want.ID || w.now() != elapsedAt {
+					o := kit.Viol(kind+":order-after-tie", "after the coincidence of a cancellation and a hand-off, with callers %s waiting (oldest first), one release served %v; %s order asks for caller %d; points %v", lineStr(line), got, ordName(lifo), want.ID, sc.Trace)
+					viol = &o
+				}
+				line = rest
+			}
 		}
 		msg := w.unwind(c.Stack.effTimeout() + 2*time.Second)
 		w.flush()
